@@ -51,13 +51,17 @@ static void run_C14(const Args &a, long cs) {
 	// the coarse intervals to the kernel width - thorough tier: order 5 with 6 kernel knots on such an axis is off by 180 % - and says nothing new)
 	bool graded = !repeated && !narrow && s.order[dim] <= 4 && r.coin(0.14); double graded_step0 = 0;
 	if (graded) { auto &kk = s.knots[dim]; graded_step0 = 0.02 + 0.03 * r.U(); double q = 1.4 + 0.4 * r.U(), st = graded_step0; bool rev = r.coin(0.3); std::vector<double> steps; for (size_t i = 1; i < kk.size(); i++) { steps.push_back(st); st *= q; } if (rev) std::reverse(steps.begin(), steps.end()); for (size_t i = 1; i < kk.size(); i++) kk[i] = kk[i - 1] + steps[i - 1]; }
+	// commensurate but inexact: knots 0.1*i with kernel knots on multiples of 0.05 - the pairwise sums then contain values that agree to an ulp or two without being equal
+	bool commens = !repeated && !narrow && !graded && s.order[dim] <= 3 && r.coin(0.06);
+	if (commens) { auto &kk = s.knots[dim]; int i0 = (int)r.below(40) - 20; for (size_t i = 0; i < kk.size(); i++) kk[i] = 0.1 * (double)(i0 + (int)i); }
 	bool ones = r.coin(0.2);
 	s.coef.resize(tot); for (auto &c : s.coef) c = ones ? 1.f : (float)(r.U() - 0.3);
 	int n = r.range(2, 6); // kernel knots
 	if (graded) n = r.range(2, 6 - (int)s.order[dim]);
 	std::vector<double> tau; { double y0 = -r.U(); double wscale = std::pow(10.0, r.U() * 2 - 1.3); if (narrow) wscale = std::pow(10.0, -(double)r.range(3, 6)); if (graded) wscale = graded_step0 * (2 + 10 * r.U()); bool sym = r.coin(0.3); for (int i = 0; i < n; i++) { tau.push_back(y0); y0 += (0.1 + r.U()) * wscale; } if (sym) { double c0 = 0.5 * (tau[0] + tau.back()); for (auto &t : tau) t -= c0; for (int i = 0; i < n / 2; i++) tau[n - 1 - i] = -tau[i]; if (n % 2) tau[n / 2] = 0; std::sort(tau.begin(), tau.end()); for (int i = 1; i < n; i++) if (!(tau[i] > tau[i - 1])) tau[i] = tau[i - 1] + 0.01 * wscale; } }
+	if (commens) { static const std::vector<std::vector<double>> ck = {{-0.05, 0.05}, {-0.1, 0.0, 0.1}, {-0.15, -0.05, 0.05, 0.15}, {0.3, 0.7, 0.8}, {0.0, 0.1}, {-0.2, 0.1, 0.3}, {0.05, 0.15, 0.35}}; std::vector<std::vector<double>> ok; for (auto &c : ck) if ((int)s.order[dim] + (int)c.size() <= 6) ok.push_back(c); tau = ok[r.below(ok.size())]; n = (int)tau.size(); count("tables-with-commensurate-inexact-knots-and-kernel"); }
 	// the unit of the convolved axis: the convolution commutes with a change of unit, so the same table with nanosecond-sized or mega-sized coordinates must do as well
-	{ static const double units[] = {1, 1, 1, 1, 1, 1e-9, 1e-7, 1e-3, 1e3, 1e6}; double u = units[r.below(10)]; if (u != 1) { for (auto &kk : s.knots[dim]) kk *= u; for (auto &tt : tau) tt *= u; bool inc = true; for (size_t i = 1; i < s.knots[dim].size(); i++) if (!(s.knots[dim][i] > s.knots[dim][i - 1])) inc = false; for (int i = 1; i < n; i++) if (!(tau[i] > tau[i - 1])) inc = false; if (!inc) return; char b[32]; snprintf(b, sizeof b, "%g", u); count(std::string("axis-unit:") + b); } else count("axis-unit:1"); }
+	{ static const double units[] = {1, 1, 1, 1, 1, 1e-9, 1e-7, 1e-3, 1e3, 1e6}; double u = units[r.below(10)]; if (commens) u = 1; if (u != 1) { for (auto &kk : s.knots[dim]) kk *= u; for (auto &tt : tau) tt *= u; bool inc = true; for (size_t i = 1; i < s.knots[dim].size(); i++) if (!(s.knots[dim][i] > s.knots[dim][i - 1])) inc = false; for (int i = 1; i < n; i++) if (!(tau[i] > tau[i - 1])) inc = false; if (!inc) return; char b[32]; snprintf(b, sizeof b, "%g", u); count(std::string("axis-unit:") + b); } else count("axis-unit:1"); }
 	s.flavor = "conv";
 	Table T; if (!load(T, s)) { viol("C14:load:well-formed-table-rejected", s.full_json()); return; }
 	Table T2; load(T2, s);
@@ -212,6 +216,7 @@ static void run_C17(const Args &a, long cs) {
 		for (size_t i = 0; i < tot; i++) { long j = (long)((i / inner) % nax); if (trailing ? j >= nax - kill : j < kill) s.coef[i] = 0.f; }
 		count("tables-with-zero-edge-hyperplanes");
 	}
+	if (r.coin(0.2)) { static const float cs_[] = {1e-19f, 1e-30f, 1e-12f, 1e12f, 1e25f}; float u = cs_[r.below(5)]; for (auto &c : s.coef) c *= u; char b[32]; snprintf(b, sizeof b, "%g", (double)u); count(std::string("coefficient-unit:") + b); } // the unit of the values: grid evaluation is linear in the coefficients
 	if (r.coin(0.04)) { for (auto &c : s.coef) c = 0.f; count("tables-with-all-coefficients-zero"); } // the zero function: the correct result is an empty listing
 	s.flavor = "grid";
 	if (cs % 150 == 149) { // long grids: the product of the index ranges reaches 2^31 / 2^32 although the result (one non-zero coefficient) is tiny
